@@ -1,4 +1,5 @@
 import WM.Lemmas.ReplaceUnion
+import WM.Lemmas.ReplaceMulti
 /-! `DisjunctionMaxMatcher.replace`, `AndNotMatcher.replace`, `AndMaybeMatcher.replace`, and the assembly. -/
 namespace WM.Matcher
 
@@ -269,5 +270,7 @@ theorem replace_spec : ∀ s : Shape, ReplSpec s (replace s)
   | .filter c => replace_filter_spec c (replace_spec c)
   | .inverse c => replace_inverse_spec c (replace_spec c)
   | .const c => replace_const_spec c (replace_spec c)
+  | .multi c => replace_multi_spec c
+  | .aunion c => fun m q h => ⟨(false, ⟨.aunion c, m⟩), rfl, ReplOK.self (.aunion c) m q h⟩
 
 end WM.Matcher
